@@ -120,7 +120,7 @@ func vStartAgent(o vAgentOpts) (*vAgent, error) {
 		if o.ReuseP4 != nil {
 			a.p4 = o.ReuseP4
 		} else if !o.NoDatapath {
-			a.p4, err = vNewP4Srv("127.0.0.1:0")
+			a.p4, err = vNewP4Srv(vEnv.addr(254) + ":0") // the child's own loopback address: its own port space
 			if err != nil {
 				return nil, err
 			}
@@ -147,7 +147,7 @@ func vStartAgent(o vAgentOpts) (*vAgent, error) {
 			a.bess = o.ReuseBess
 			*bessIP = a.bess.addr
 		} else if !o.NoDatapath {
-			a.bess, err = vNewBess("127.0.0.1:0")
+			a.bess, err = vNewBess(vEnv.addr(254) + ":0")
 			if err != nil {
 				return nil, err
 			}
